@@ -327,7 +327,11 @@ func mutKind(m string) string {
 func reread(r *mon.Run, sc *scenario, f []byte, class, mut string) *bundle.Bundle {
 	var b *bundle.Bundle
 	var err error
-	p, pv := r.Call(fmt.Sprintf("%s/%s/%s/read", sc.desc, class, mut), f, func() { b, err = bundle.Read(bytes.NewReader(f)) })
+	mem := append([]byte{}, f...) // the caller's buffer, reused as soon as Read has returned
+	p, pv := r.Call(fmt.Sprintf("%s/%s/%s/read", sc.desc, class, mut), f, func() { b, err = bundle.Read(bytes.NewBuffer(mem)) })
+	for i := range mem {
+		mem[i] = 0xCC
+	}
 	if p {
 		r.Eval(class + ":PANIC")
 		r.Violation(fmt.Sprintf("bs:%s:%s:%s:readpanic", sc.desc, class, mut), fmt.Sprintf("bundle.Read panicked: %v", pv), nil)
